@@ -276,6 +276,26 @@ func carryTemplate(c *core.Ctx, r *core.Report, fn *ssa.Function, k cell, what s
 				}
 			}
 		}
+		// read and update are one step: when the cell is protected by a mutex, the lock is not released between the
+		// read that enters the amount due and this store (a second caller's update in between would be overwritten)
+		for _, ld := range k.loads(fn) {
+			if carryLoad != nil && ld != carryLoad {
+				continue
+			}
+			for _, call := range an.AllCalls(fn) {
+				if _, isDefer := call.(*ssa.Defer); isDefer {
+					continue
+				}
+				t := an.Callee(call)
+				if t == nil || t.Pkg == nil || t.Pkg.Pkg.Path() != "sync" || (t.Name() != "Unlock" && t.Name() != "RUnlock") {
+					continue
+				}
+				if an.ReachableFrom(ld, call) && an.ReachableFrom(call, st) {
+					ok = false
+					r.Violation(key+"#split-critical-section", an.Pos(c, call), "the lock protecting %s is released between the read that enters the amount due and the update: a call running in between has its carry overwritten (lost update), so what it did not emit is never paid back", k.name)
+				}
+			}
+		}
 		// returns after this store return int(out)
 		nRet := 0
 		for _, ret := range an.Returns(fn) {
